@@ -5,6 +5,10 @@ package rest
 import (
 	"io"
 	"net/http"
+	"sync"
+
+	"github.com/inbucket/inbucket/v3/pkg/extension/event"
+	"github.com/inbucket/inbucket/v3/pkg/msghub"
 
 	"github.com/inbucket/inbucket/v3/pkg/message"
 	"github.com/inbucket/inbucket/v3/pkg/rest/model"
@@ -48,8 +52,8 @@ func ghost_rendered(w io.Writer) any         { panic("ghost") }
 
 // spec_showsMsg: the rendered value is a v1 message document whose identifying and state fields are
 // those of the stored message (not of the request).
-//@ func spec_showsMsg
-//@   inline
+// @ func spec_showsMsg
+// @   inline
 func spec_showsMsg(r any, name string, m *message.Message) bool {
 	j, ok := r.(*model.JSONMessageV1)
 	return ok && j != nil && m != nil && j.Mailbox == name && j.ID == m.ID && j.Subject == m.Subject &&
@@ -121,3 +125,60 @@ func spec_showsMsg(r any, name string, m *message.Message) bool {
 //@   ensures[missing404] message.Ghost_nRemove(ctx.Manager) == old(message.Ghost_nRemove(ctx.Manager)) + 1 && message.Ghost_lastErr(ctx.Manager) == storage.ErrNotExist ==>
 //@      err == nil && ghost_status(w) == 404
 //@   serves C14
+
+// ---------------------------------------------------------------------------------------------
+// C15: the WebSocket listeners as seen by the hub goroutine.  Receive / Delete must never wait (a
+// plain channel send would stall every other monitor once this client's queue is full): they are
+// declared nonblocking.  They may panic in exactly one way — a send on the listener's channel after
+// Close() closed it — which the hub contains (msghub.safeReceive / safeDelete): maypanic.
+// Close is idempotent: it deregisters and closes exactly once, whatever is still queued.
+func ghost_onceDone(o *sync.Once) bool                     { panic("ghost") }
+func ghost_closedV1(c chan event.MessageMetadata) bool     { panic("ghost") }
+func ghost_closedV2(c chan *model.JSONMonitorEventV2) bool { panic("ghost") }
+func ghost_closedOps(c chan func(h *msghub.Hub)) bool      { panic("ghost") }
+func ghost_nremoveReq(h *msghub.Hub) int                   { panic("ghost") }
+
+var _ event.MessageMetadata
+
+//@ func (*msgListenerV1).enqueue
+//@   inline
+//@ func (*msgListenerV2).enqueue
+//@   inline
+
+//@ func (*msgListenerV1).Receive
+//@   maypanic
+//@   requires ml != nil && ml.c != nil
+//@   attr nonblocking=1
+//@   serves C15
+//@ func (*msgListenerV1).Delete
+//@   requires ml != nil
+//@   attr nonblocking=1
+//@   ensures ret == nil
+//@   serves C15
+//@ func (*msgListenerV2).Receive
+//@   maypanic
+//@   requires ml != nil && ml.c != nil
+//@   attr nonblocking=1
+//@   serves C15
+//@ func (*msgListenerV2).Delete
+//@   maypanic
+//@   requires ml != nil && ml.c != nil
+//@   attr nonblocking=1
+//@   serves C15
+
+// Object invariant of a listener: its channel is closed exactly when its Once has fired.
+//@ pred spec_lsnV1OK(ml *msgListenerV1) bool = ml != nil && ml.hub != nil && ml.c != nil && ghost_onceDone(&ml.closeOnce) == ghost_closedV1(ml.c)
+//@ pred spec_lsnV2OK(ml *msgListenerV2) bool = ml != nil && ml.hub != nil && ml.c != nil && ghost_onceDone(&ml.closeOnce) == ghost_closedV2(ml.c)
+
+//@ func (*msgListenerV1).Close
+//@   requires spec_lsnV1OK(ml) && msghub.Spec_hubOpen(ml.hub)
+//@   modifies ghost_onceDone(&ml.closeOnce), ghost_closedV1(ml.c), ghost_nremoveReq(ml.hub)
+//@   ensures[closed C15] spec_lsnV1OK(ml) && ghost_closedV1(ml.c)
+//@   ensures[deregistersOnce C15] msghub.Ghost_nremoveReq(ml.hub) == old(msghub.Ghost_nremoveReq(ml.hub)) + vcIte(old(ghost_onceDone(&ml.closeOnce)), 0, 1)
+//@   serves C15
+//@ func (*msgListenerV2).Close
+//@   requires spec_lsnV2OK(ml) && msghub.Spec_hubOpen(ml.hub)
+//@   modifies ghost_onceDone(&ml.closeOnce), ghost_closedV2(ml.c), ghost_nremoveReq(ml.hub)
+//@   ensures[closed C15] spec_lsnV2OK(ml) && ghost_closedV2(ml.c)
+//@   ensures[deregistersOnce C15] msghub.Ghost_nremoveReq(ml.hub) == old(msghub.Ghost_nremoveReq(ml.hub)) + vcIte(old(ghost_onceDone(&ml.closeOnce)), 0, 1)
+//@   serves C15
